@@ -71,4 +71,45 @@ def server_with(history: str):
 
 
 def session_with(role: str, history: str):
+    if history.startswith("custom-raising:"):
+        return session_with_raising_control(role, history.split(":", 1)[1])
     return client_with(history) if role == "client" else server_with(history)
+
+
+# ---------------------------------------------------------------- sessions with registered custom types that fail
+RAISING_CONTROL_OID = "1.2.3.4.77"
+_RAISING = {}
+
+
+def raising_control_class(exc_name: str):
+    """A registered control type whose unpack raises exc (a custom type is the application's code: it signals a bad value
+    the way library types do - ValueError, NotImplementedError - or with the library's own ProtocolError)."""
+    import dataclasses
+
+    if exc_name in _RAISING:
+        return _RAISING[exc_name]
+    exc = {"ValueError": ValueError, "NotImplementedError": NotImplementedError, "ProtocolError": sl.ProtocolError, "RecursionError": RecursionError}[exc_name]
+
+    @dataclasses.dataclass(frozen=True)
+    class RaisingControl(sl.LDAPControl):
+        control_type: str = dataclasses.field(init=False, repr=False, default=RAISING_CONTROL_OID)
+        value: t.Optional[bytes] = dataclasses.field(init=False, repr=False, default=None)
+        payload: bytes = b""
+
+        def get_value(self, options):
+            return self.payload
+
+        @classmethod
+        def unpack(cls, control_type, critical, value, options):
+            if value and value.startswith(b"!"):
+                raise exc("custom control refuses this value")
+            return cls(critical=critical, payload=value or b"")
+
+    _RAISING[exc_name] = RaisingControl
+    return RaisingControl
+
+
+def session_with_raising_control(role: str, exc_name: str):
+    sess, ip = session_with(role, "opened-ops")
+    sess.register_control(raising_control_class(exc_name))
+    return sess, ip
